@@ -950,8 +950,16 @@ def apply_wild(world, op):
             bad = core.Field('PID_1', version=world.version, validation_level=world.level)
         world.detached.append(bad)
         offered = bad
-        moved = reps(other)[i % len(reps(other))]
-        G(lambda: setattr(el, 'children', [moved, bad]))
+        rs = list(reps(other))
+        if len(rs) >= 2 and i % 3:
+            # two or three children of the other parent, listed in their order there or in another one: all go back to
+            # the places they had
+            moved = rs[:3] if i % 3 == 1 else rs[:3][::-1]
+            if i % 2 and len(moved) == 3:
+                moved = [moved[1], moved[2], moved[0]]
+        else:
+            moved = [rs[i % len(rs)]]
+        G(lambda: setattr(el, 'children', moved + [bad]))
     elif k == 'f_stale_handle_badvalue':
         # a handle taken through a field that did not exist yet; a real field of that name is then added by other means;
         # a value the handle's component refuses is assigned through the handle: the real field stays, nothing else appears
